@@ -835,6 +835,94 @@ fn apply(st: &mut State, line: &str, out: &mut String) {
                 }
             }
         }
+        "tde" => {
+            // tde src dst hr <dup|del|swap|inc k>…: the unmutated serialization of `src`, mutated at the level of
+            // tokens (duplicate / delete / swap with the next / alter token k), then deserialized into `dst`.
+            // Accepted: reported as `cde` with the content of the world that came out; rejected: `tde`.
+            let (src, dst, hr) = (u(1), u(2), u(3) == 1);
+            while st.worlds.len() <= dst {
+                st.worlds.push(None);
+            }
+            if dst != src {
+                st.worlds[dst] = None;
+                ledger::take_events();
+                if let Some(w) = st.worlds[src].as_mut() {
+                    let c = content_of(w);
+                    let mut toks = encode(&c, hr);
+                    let mut i = 4;
+                    while i + 1 < t.len() {
+                        let k0 = t[i + 1].parse::<usize>().unwrap_or(0);
+                        // `dupn`/`deln`/`incn`: the k-th numeric token (values, identifier fields, declared lengths);
+                        // `dups`/`dels`: the k-th structural token; otherwise any token
+                        let pick = |numeric: bool| -> Option<usize> {
+                            let c: Vec<usize> = toks
+                                .iter()
+                                .enumerate()
+                                .filter(|(_, x)| matches!(x, Token::U64(_) | Token::U8(_)) == numeric)
+                                .map(|(j, _)| j)
+                                .collect();
+                            if c.is_empty() { None } else { Some(c[k0 % c.len()]) }
+                        };
+                        let (kind, k) = match t[i] {
+                            "dupn" => ("dup", pick(true)),
+                            "deln" => ("del", pick(true)),
+                            "incn" => ("inc", pick(true)),
+                            "dups" => ("dup", pick(false)),
+                            "dels" => ("del", pick(false)),
+                            other => (other, Some(k0 % toks.len().max(1))),
+                        };
+                        let k = match k {
+                            Some(k) if k < toks.len() => k,
+                            _ => {
+                                i += 2;
+                                continue;
+                            }
+                        };
+                        match kind {
+                            "dup" => {
+                                let x = toks[k].clone();
+                                toks.insert(k, x);
+                            }
+                            "del" => {
+                                toks.remove(k);
+                            }
+                            "swap" => {
+                                if k + 1 < toks.len() {
+                                    toks.swap(k, k + 1);
+                                }
+                            }
+                            _ => {
+                                toks[k] = match toks[k].clone() {
+                                    Token::U64(v) => Token::U64(v.wrapping_add(1) % (1 << 20)),
+                                    Token::U8(v) => Token::U8(v ^ 1),
+                                    Token::Tuple { len } => Token::Tuple { len: len + 1 },
+                                    Token::Seq { len } => Token::Seq { len: len.map(|l| l + 1) },
+                                    Token::Field(_) => Token::Field("index"),
+                                    x => x,
+                                };
+                            }
+                        }
+                        i += 2;
+                    }
+                    opline = format!("op tde {} {}", dst, if hr { 1 } else { 0 });
+                    let mut de = serde_assert::Deserializer::builder()
+                        .tokens(serde_assert::Tokens(toks))
+                        .is_human_readable(hr)
+                        .build();
+                    match W::deserialize(&mut de) {
+                        Ok(mut w2) => {
+                            let c2 = content_of(&mut w2);
+                            opline = format!("op cde {} {}{}", dst, if hr { 1 } else { 0 }, content_text(&c2));
+                            st.worlds[dst] = Some(w2);
+                            ret = "ok".into();
+                        }
+                        Err(e) => {
+                            ret = format!("err-de {}", e.to_string().replace('\n', " ").replace(' ', "_"));
+                        }
+                    }
+                }
+            }
+        }
         "fault" => {
             // fault <drop|clone|eq|ser|de> k: the k-th such callback of the next operation panics
             let kind = match t[1] {
